@@ -35,9 +35,24 @@ type tagErr struct{ tag string }
 
 func (e *tagErr) Error() string { return e.tag }
 
+// wrapErr wraps another error (errors.Unwrap works on it); its tag is the op token itself
+type wrapErr struct {
+	tag   string
+	inner error
+}
+
+func (e *wrapErr) Error() string { return e.tag + ": " + e.inner.Error() }
+func (e *wrapErr) Unwrap() error { return e.inner }
+
 func errTag(err error) string {
 	if err == nil {
 		return "nil"
+	}
+	if _, ok := err.(*base.BlockError); ok {
+		return "blk"
+	}
+	if w, ok := err.(*wrapErr); ok {
+		return w.tag
 	}
 	if t, ok := err.(*tagErr); ok {
 		return t.tag
@@ -64,6 +79,8 @@ type Interp struct {
 	soaked bool
 	soakAt uint64
 	wedged bool
+	manySeq  int
+	manyDone bool
 	backward bool // the clock has stepped backwards in this case: the library's uint64 response times wrap
 	soakN  int // soaks so far in this case
 	hungReset bool // the clean-up of the previous case hung: reported by the first op of the next one
@@ -105,6 +122,7 @@ func (it *Interp) Reset() {
 		}
 	}
 	it.wedged = false
+	it.manySeq, it.manyDone = 0, false
 	it.backward = false
 	it.soakN = 0
 	it.cmaps = map[string]map[interface{}]interface{}{}
@@ -345,9 +363,17 @@ func ev(s string) base.MetricEvent {
 	panic("bad event " + s)
 }
 
+// mkErr: `nil`; `blk` = a *base.BlockError (what a blocked nested Entry hands to the caller); `w_<x>` = an error wrapping
+// another one; anything else a plain error.  Every non-nil error counts once, whatever its dynamic type.
 func mkErr(tag string) error {
 	if tag == "nil" {
 		return nil
+	}
+	if tag == "blk" {
+		return base.NewBlockError(base.WithBlockType(base.BlockTypeFlow))
+	}
+	if strings.HasPrefix(tag, "w_") {
+		return &wrapErr{tag: tag, inner: &tagErr{tag[2:]}}
 	}
 	return &tagErr{tag}
 }
@@ -638,11 +664,33 @@ func (it *Interp) step(t []string, op string) string {
 		stat.ResetResourceNodeMap() // a test utility, but callable while entries are in flight
 		return ""
 	case "nodes":
+		if it.manyDone {
+			return "?"
+		}
 		var xs []string
 		for _, n := range stat.ResourceNodeList() {
 			xs = append(xs, n.ResourceName())
 		}
 		return vh.SortedList(xs)
+	case "many":
+		// n never-seen resources, each entered (outbound, default chain) and exited at once: the node map grows
+		// (past base.DefaultMaxResourceAmount = 10000 when n is large enough)
+		for k, n := 0, int(vh.U(t[1])); k < n; k++ {
+			e, b := sentinel.Entry("many-" + strconv.Itoa(it.manySeq))
+			it.manySeq++
+			if e == nil || b != nil {
+				return "blocked"
+			}
+			e.Exit()
+		}
+		it.manyDone = true
+		return ""
+	case "seterr":
+		x := it.ents[t[1]]
+		if x.e != nil {
+			x.e.SetError(mkErr(t[2]))
+		}
+		return ""
 	case "whenexit":
 		x := it.ents[t[1]]
 		if x.e == nil {
